@@ -710,6 +710,23 @@ impl Pool {
             shard.validate()?;
         }
 
+        // Shard numbers are used as indexes into the list of shards, so every number
+        // from 0 to n-1 has to be present (with n shards this means exactly 0..n-1).
+        for shard_number in 0..self.shards.len() {
+            if !self
+                .shards
+                .keys()
+                .any(|shard_idx| shard_idx.parse::<usize>() == Ok(shard_number))
+            {
+                error!(
+                    "Shard {} is missing, shards must be numbered 0 to {}",
+                    shard_number,
+                    self.shards.len() - 1
+                );
+                return Err(Error::BadConfig);
+            }
+        }
+
         for (option, name) in [
             (&self.shard_id_regex, "shard_id_regex"),
             (&self.sharding_key_regex, "sharding_key_regex"),
